@@ -301,6 +301,23 @@ def arg_is_pointer(call, i):
     return True
 
 
+def peel(fn, e):
+    """strip casts and follow element references until neither applies"""
+    for _ in range(20):
+        if isinstance(e, list) and e:
+            if e[0] == "k":
+                e = e[2]
+                continue
+            if e[0] == "r":
+                el = fn.elems.get(e[1])
+                if el is None:
+                    return e
+                e = el.e
+                continue
+        break
+    return e
+
+
 def strip_casts(e):
     while isinstance(e, list) and e and e[0] == "k":
         e = e[2]
